@@ -14,7 +14,7 @@ LIMITS = {'quick': {'max_paths': 6000, 'max_s': 100}, 'thorough': {'max_paths': 
 
 ENUM2 = {'k': 'enum', 'members': {'a': 1, 'b': 2, 'c': 5, 'z': 0}}
 SHAPES = {'double': D, 'double-unlimited': DU, 'double-absres': DA, 'int': I, 'bool': B, 'enum': ENUM, 'scaled0.1': SC(0.1),
-          'scaled3': SC(3), 'scaled2^-10': SC(2 ** -10), 'scaled1/3': SC(1 / 3), 'string': S, 'string-utf8': SU, 'blob': BL,
+          'scaled3': SC(3), 'scaled2^-10': SC(2 ** -10), 'scaled1/3': SC(1 / 3), 'string': S, 'string-utf8': SU, 'string-unlimited': {'k': 'string', 'unlimited': True}, 'blob': BL,
           'array-int': {'k': 'array', 'of': I}, 'array-enum': {'k': 'array', 'of': ENUM},
           'tuple': {'k': 'tuple', 'of': [D, ENUM, S]},
           'struct': {'k': 'struct', 'of': {'x': D, 'e': ENUM}, 'optional': ['e']},
